@@ -9,7 +9,7 @@ import concurrent.futures, json, os, re, shutil, subprocess, sys, tempfile
 ROOT = os.path.dirname(os.path.dirname(os.path.abspath(__file__)))
 SEEDED = os.path.join(ROOT, "seeded")
 # checks run in addition to the change's own property (where the deviation surfaces in a neighbouring property's oracle)
-EXTRA = {"C06-m8": ["C13"], "C10-m5": ["C11"], "C11-m6": ["C10"], "C06-m6": ["C11"], "C08-m6": ["C11"], "C04-m6": ["C11"], "C01-m5": ["C06"], "C03-m6": ["C11"], "C07-m5": ["C11"], "C07-m6": ["C01"], "C11-m4": ["C10"], "C07-m1": ["C01"], "C07-m2": ["C01"], "C08-m2": ["C03"], "C05-m3": ["C11"], "C04-m3": ["C11"], "C07-m3": ["C01"]}
+EXTRA = {"C16-m14": ["C03", "C11"], "C06-m8": ["C13"], "C10-m5": ["C11"], "C11-m6": ["C10"], "C06-m6": ["C11"], "C08-m6": ["C11"], "C04-m6": ["C11"], "C01-m5": ["C06"], "C03-m6": ["C11"], "C07-m5": ["C11"], "C07-m6": ["C01"], "C11-m4": ["C10"], "C07-m1": ["C01"], "C07-m2": ["C01"], "C08-m2": ["C03"], "C05-m3": ["C11"], "C04-m3": ["C11"], "C07-m3": ["C01"]}
 # changes the quick tier cannot reach by construction (confirmed at the thorough tier with tools/altcheck.sh)
 TIER_NOTES = {"C07-m4": "needs a consumer that stalls for more than 5 s: the quick tier stalls 1.5 s; detected at the thorough tier (6.5 s stall; getEntries, getRebuild)"}
 SCRATCH = os.environ.get("MATRIX_SCRATCH", "/tmp/mx%d" % os.getpid())
